@@ -80,8 +80,14 @@ pub fn run_case_c07(case: &Case, prog: &Prog, mode: &Mode) -> (CaseReport, Value
     // task-spawning signature: how many branches reach their first pending point within the
     // first poll of the macro's future, before the runtime gets to run spawned tasks
     let mut spawn_sig = Value::Null;
+    let mut outside = Value::Null;
     if kind.is_async {
         spawn_sig = json!(asyncx::first_poll_arrivals(case, prog));
+        if prog.branches.len() == 1 {
+            outside = json!(asyncx::outside_runtime(case));
+            rep.runs += 1;
+            rep.class("single_branch_future_driven_outside_any_runtime");
+        }
     }
     // try-async macros: a branch fails while every other branch of the step is still pending at its
     // first pending point. What the macro's future then does (the value it completes with, and how
@@ -153,7 +159,7 @@ pub fn run_case_c07(case: &Case, prog: &Prog, mode: &Mode) -> (CaseReport, Value
     if rep.samples.is_empty() && !digests.is_empty() {
         rep.samples.push(json!({"plans": digests.len(), "first": digests[0]}));
     }
-    (rep, json!({"digests": digests, "spawn_sig": spawn_sig, "deep": deep, "gated": gated, "named": named}))
+    (rep, json!({"digests": digests, "spawn_sig": spawn_sig, "deep": deep, "gated": gated, "named": named, "outside": outside}))
 }
 
 // ------------------------------------------------------------------------------- C18
